@@ -55,7 +55,7 @@
       ReleaseHold that fails half way leaves the denominations it did release released; the model
       skips the whole item instead.  The two differ only when some hold is SMALLER than what the
       records require, which no reachable state shows ([C02_inv_reachable]); under cover nothing
-      is skipped at all ([close_market_delta] in Proofs/HoldsMulti.v).
+      is skipped at all ([close_market_delta] in Proofs/HoldsMultiWf.v).
     - An errored operation returns the OLD state.  No proofs in this file. *)
 From Coq Require Import ZArith List Bool.
 Import ListNotations.
